@@ -1,6 +1,6 @@
 (* Tree/CopyProofsIrpOps.v — C13 independence calculus, layer 3: tactics and the operations of Tree/Ops.v. *)
 From AV Require Import Base.Bytes Base.Outcome Hash.HashModel Tree.Heap Tree.Ops Tree.Script
-  Tree.CopyProofsW Tree.CopyProofsDefs Tree.CopyProofsIrp Tree.CopyProofsIrpLib.
+  Tree.CopyProofsW Tree.CopyProofsDefs Tree.CopyProofsIrp Tree.CopyProofsIrpLib Tree.CopyProofsGrow.
 From Coq Require Import Lia PeanoNat.
 Open Scope string_scope.
 Open Scope list_scope.
@@ -116,28 +116,28 @@ Create HintDb irp discriminated.
 #[export] Hint Extern 1 (OutC _ _) => outl : irp.
 #[export] Hint Extern 1 (OutI _ _) => outl : irp.
 #[export] Hint Extern 1 (OutP _ _) => outl : irp.
-#[export] Hint Extern 1 (irpq _ _ _ _ (model_of _)) => (eapply irpq_model_of; np) : irp.
-#[export] Hint Extern 1 (irpq _ _ _ _ (dfs_ids _ _)) => (eapply irpq_dfs_ids; np) : irp.
-#[export] Hint Extern 1 (irpq _ _ _ _ (named_paths _ _)) => (eapply irpq_named_paths; outl) : irp.
-#[export] Hint Extern 1 (irpq _ _ _ _ (ref_texts _ _ _)) => (eapply irpq_ref_texts; outl) : irp.
-#[export] Hint Extern 1 (irpq _ _ _ _ (parent_of ?n)) =>
+#[export] Hint Extern 1 (irpqL _ _ _ _ _ _ _ (model_of _)) => (eapply irpq_model_of; np) : irp.
+#[export] Hint Extern 1 (irpqL _ _ _ _ _ _ _ (dfs_ids _ _)) => (eapply irpq_dfs_ids; np) : irp.
+#[export] Hint Extern 1 (irpqL _ _ _ _ _ _ _ (named_paths _ _)) => (eapply irpq_named_paths; outl) : irp.
+#[export] Hint Extern 1 (irpqL _ _ _ _ _ _ _ (ref_texts _ _ _)) => (eapply irpq_ref_texts; outl) : irp.
+#[export] Hint Extern 1 (irpqL _ _ _ _ _ _ _ (parent_of ?n)) =>
   (match goal with H : GoodN _ _ n |- _ => eapply irpq_parent_of; exact H end) : irp.
-#[export] Hint Extern 1 (irpq _ _ _ _ (wtry (parent_of ?n))) =>
+#[export] Hint Extern 1 (irpqL _ _ _ _ _ _ _ (wtry (parent_of ?n))) =>
   (match goal with H : GoodN _ _ n |- _ => eapply irpq_try; eapply irpq_parent_of; exact H end) : irp.
-#[export] Hint Extern 1 (irpq _ _ _ _ (first_named _ _)) => (eapply irpq_first_named; outl) : irp.
-#[export] Hint Extern 1 (irpq _ _ _ _ (get_sub_element _ _)) => (eapply irpq_get_sub_element; np) : irp.
-#[export] Hint Extern 1 (irpq _ _ _ _ (first_named_item _ _ _ _)) => (eapply irpq_first_named_item; outl) : irp.
-#[export] Hint Extern 8 (irpq _ _ _ _ _) => (apply irp_ro; solve [ro_tac]) : irp.
-#[export] Hint Extern 2 (irpq _ _ _ _ (add_identifiable _ _ _)) => (apply irp_add_identifiable; [assumption | np]) : irp.
-#[export] Hint Extern 2 (irpq _ _ _ _ (remove_identifiable _ _)) => (apply irp_remove_identifiable; assumption) : irp.
-#[export] Hint Extern 2 (irpq _ _ _ _ (fix_identifiables _ _ _)) => (apply irp_fix_identifiables; assumption) : irp.
-#[export] Hint Extern 2 (irpq _ _ _ _ (add_reference_origin _ _ _)) => (apply irp_add_reference_origin; [assumption | np]) : irp.
-#[export] Hint Extern 2 (irpq _ _ _ _ (fix_reference_origins _ _ _ _)) => (apply irp_fix_reference_origins; [assumption | np]) : irp.
-#[export] Hint Extern 2 (irpq _ _ _ _ (remove_reference_origin _ _ _)) => (apply irp_remove_reference_origin; assumption) : irp.
+#[export] Hint Extern 1 (irpqL _ _ _ _ _ _ _ (first_named _ _)) => (eapply irpq_first_named; outl) : irp.
+#[export] Hint Extern 1 (irpqL _ _ _ _ _ _ _ (get_sub_element _ _)) => (eapply irpq_get_sub_element; np) : irp.
+#[export] Hint Extern 1 (irpqL _ _ _ _ _ _ _ (first_named_item _ _ _ _)) => (eapply irpq_first_named_item; outl) : irp.
+#[export] Hint Extern 8 (irpqL _ _ _ _ _ _ _ _) => (apply irp_ro; solve [ro_tac]) : irp.
+#[export] Hint Extern 2 (irpqL _ _ _ _ _ _ _ (add_identifiable _ _ _)) => (apply irp_add_identifiable; [assumption | np]) : irp.
+#[export] Hint Extern 2 (irpqL _ _ _ _ _ _ _ (remove_identifiable _ _)) => (apply irp_remove_identifiable; assumption) : irp.
+#[export] Hint Extern 2 (irpqL _ _ _ _ _ _ _ (fix_identifiables _ _ _)) => (apply irp_fix_identifiables; assumption) : irp.
+#[export] Hint Extern 2 (irpqL _ _ _ _ _ _ _ (add_reference_origin _ _ _)) => (apply irp_add_reference_origin; [assumption | np]) : irp.
+#[export] Hint Extern 2 (irpqL _ _ _ _ _ _ _ (fix_reference_origins _ _ _ _)) => (apply irp_fix_reference_origins; [assumption | np]) : irp.
+#[export] Hint Extern 2 (irpqL _ _ _ _ _ _ _ (remove_reference_origin _ _ _)) => (apply irp_remove_reference_origin; assumption) : irp.
 
 Ltac irp_loop :=
   match goal with
-  | |- irpq ?P ?b ?pf ?Q (?F ?l) =>
+  | |- irpqL ?P ?b ?pf _ _ _ ?Q (?F ?l) =>
     is_fix F;
     first
     [ let H := fresh "Hout" in
@@ -149,40 +149,40 @@ Ltac irp_loop :=
 
 Ltac irp_step :=
   lazymatch goal with
-  | |- irp _ _ _ _ => unfold irp
-  | |- irpq _ _ _ _ (wret _) => apply irpq_ret; first [exact I | np | outl | auto with irp]
-  | |- irpq _ _ _ _ (wfail _) => apply irpq_fail
-  | |- irpq _ _ _ _ (wpanic _) => apply irpq_panic
-  | |- irpq _ _ _ _ wfuel => apply irpq_fuel
-  | |- irpq _ _ _ _ (wbind (get_node _) _) => first [ apply irpq_get; [np | intros ? ?] | apply irpq_get_any; intros ? ]
-  | |- irpq _ _ _ _ (wbind (get_model _) _) =>
+  | |- irpL _ _ _ _ _ _ _ => unfold irpL
+  | |- irpqL _ _ _ _ _ _ _ (wret _) => apply irpq_ret; first [exact I | np | outl | auto with irp]
+  | |- irpqL _ _ _ _ _ _ _ (wfail _) => apply irpq_fail
+  | |- irpqL _ _ _ _ _ _ _ (wpanic _) => apply irpq_panic
+  | |- irpqL _ _ _ _ _ _ _ wfuel => apply irpq_fuel
+  | |- irpqL _ _ _ _ _ _ _ (wbind (get_node _) _) => first [ apply irpq_get; [np | intros ? ?] | apply irpq_get_any; intros ? ]
+  | |- irpqL _ _ _ _ _ _ _ (wbind (get_model _) _) =>
     first [ apply irpq_get_model; [assumption | intros ? ?] | apply irpq_get_model_any; intros ? ]
-  | |- irpq _ _ _ _ (wbind wget _) => apply irpq_wget; intros ?
-  | |- irpq _ _ _ _ (wbind (get_file _) _) =>
+  | |- irpqL _ _ _ _ _ _ _ (wbind wget _) => apply irpq_wget; intros ?
+  | |- irpqL _ _ _ _ _ _ _ (wbind (get_file _) _) =>
     first [ apply irpq_get_file; [np | intros ? ?] | apply irpq_get_file_any; intros ? ]
-  | |- irpq _ _ _ _ (set_file _ _) => apply irp_set_file; [np | cbn [f_model]; np]
-  | |- irpq _ _ _ _ (wbind (alloc _) _) => eapply irpq_bind; [apply irpq_alloc; good | cbv beta; intros ? ?]
-  | |- irpq _ _ _ _ (wbind (wtry _) _) =>
-    first [ eapply irpq_bind; [ solve [eauto with irp nocore] | cbv beta; intros ? ? ]
-          | eapply irpq_bind; [ eapply irpq_try; solve [eauto with irp nocore] | cbv beta; intros ? ? ]
-          | eapply (irpq_bind _ _ _ (fun _ => True)); [ | intros ? _ ] ]
-  | |- irpq ?P _ _ _ (wbind (?F ?l) _) =>
-    first [ (is_fix F; eapply (irpq_bind _ _ _ (OutI P)); [ | intros ? ? ])
-          | eapply irpq_bind; [ solve [eauto with irp nocore] | cbv beta; intros ? ? ]
-          | eapply (irpq_bind _ _ _ (fun _ => True)); [ | intros ? _ ] ]
-  | |- irpq _ _ _ _ (wbind _ _) =>
-    first [ eapply irpq_bind; [ solve [eauto with irp nocore] | cbv beta; intros ? ? ]
-          | eapply (irpq_bind _ _ _ (fun _ => True)); [ | intros ? _ ] ]
-  | |- irpq _ _ _ _ (wtry _) => eapply (irp_try _ _ _ (fun _ => True))
-  | |- irpq _ _ _ _ (set_node _ _) => apply irp_set_node; [np | good]
-  | |- irpq _ _ _ _ (modify_node _ _) => apply irp_modify_node; [np | goodf]
-  | |- irpq _ _ _ _ (set_model _ _) => apply irp_set_model; [assumption | goodm]
-  | |- irpq _ _ _ _ (modify_model _ _) => apply irp_modify_model; [assumption | intros ? ?; goodm]
-  | |- irpq _ _ _ _ (match ?x with _ => _ end) => destruct x eqn:?
-  | |- irpq _ _ _ _ (if ?b then _ else _) => destruct b eqn:?
-  | |- irpq _ _ _ _ (let '(_, _) := ?x in _) => destruct x
-  | |- irpq _ _ _ _ (?F ?l) =>
-    first [ match goal with IH : _ -> irpq _ _ _ _ (F l) |- _ => apply IH; outl end
+  | |- irpqL _ _ _ _ _ _ _ (set_file _ _) => apply irp_set_file; [np | cbn [f_model]; np]
+  | |- irpqL _ _ _ _ _ _ _ (wbind (alloc _) _) => eapply irpq_bind; [apply irpq_alloc; good | solve [grows_tac] | cbv beta; intros ? ?]
+  | |- irpqL _ _ _ _ _ _ _ (wbind (wtry _) _) =>
+    first [ eapply irpq_bind; [ solve [eauto with irp nocore] | solve [grows_tac] | cbv beta; intros ? ? ]
+          | eapply irpq_bind; [ eapply irpq_try; solve [eauto with irp nocore] | solve [grows_tac] | cbv beta; intros ? ? ]
+          | eapply (irpq_bind _ _ _ _ _ _ (fun _ => True)); [ | solve [grows_tac] | intros ? _ ] ]
+  | |- irpqL ?P _ _ _ _ _ _ (wbind (?F ?l) _) =>
+    first [ (is_fix F; eapply (irpq_bind _ _ _ _ _ _ (OutI P)); [ | solve [grows_tac] | intros ? ? ])
+          | eapply irpq_bind; [ solve [eauto with irp nocore] | solve [grows_tac] | cbv beta; intros ? ? ]
+          | eapply (irpq_bind _ _ _ _ _ _ (fun _ => True)); [ | solve [grows_tac] | intros ? _ ] ]
+  | |- irpqL _ _ _ _ _ _ _ (wbind _ _) =>
+    first [ eapply irpq_bind; [ solve [eauto with irp nocore] | solve [grows_tac] | cbv beta; intros ? ? ]
+          | eapply (irpq_bind _ _ _ _ _ _ (fun _ => True)); [ | solve [grows_tac] | intros ? _ ] ]
+  | |- irpqL _ _ _ _ _ _ _ (wtry _) => eapply (irp_try _ _ _ _ _ _ (fun _ => True))
+  | |- irpqL _ _ _ _ _ _ _ (set_node _ _) => apply irp_set_node; [np | good]
+  | |- irpqL _ _ _ _ _ _ _ (modify_node _ _) => apply irp_modify_node; [np | goodf]
+  | |- irpqL _ _ _ _ _ _ _ (set_model _ _) => apply irp_set_model; [assumption | goodm]
+  | |- irpqL _ _ _ _ _ _ _ (modify_model _ _) => apply irp_modify_model; [assumption | intros ? ?; goodm]
+  | |- irpqL _ _ _ _ _ _ _ (match ?x with _ => _ end) => destruct x eqn:?
+  | |- irpqL _ _ _ _ _ _ _ (if ?b then _ else _) => destruct b eqn:?
+  | |- irpqL _ _ _ _ _ _ _ (let '(_, _) := ?x in _) => destruct x
+  | |- irpqL _ _ _ _ _ _ _ (?F ?l) =>
+    first [ match goal with IH : _ -> irpqL _ _ _ _ _ _ _ (F l) |- _ => apply IH; outl end
           | assumption
           | solve [eauto with irp nocore]
           | irp_loop ]
@@ -194,14 +194,15 @@ Section Ops.
 Variable P : id -> Prop.
 Variable PM : N -> Prop.
 Variable PF : N -> Prop.
+Variables L LM LF : N.
 Variable T : tables.
 Variable tab_el tab_en : nametab.
 Variable check_fn : N -> list N -> res bool.
 Variable LATEST : N.
 Variable root_attrs : list (N * cdata).
 
-Notation irpq := (irpq P PM PF).
-Notation irp := (CopyProofsIrp.irpq P PM PF (fun _ => True)).
+Notation irpq := (irpqL P PM PF L LM LF).
+Notation irp := (CopyProofsIrp.irpqL P PM PF L LM LF (fun _ => True)).
 Notation NPq := (fun c : id => ~ P c).
 
 Lemma irp_content_insert i pos c : ~ P i -> ~ P c -> irp (content_insert i pos (CElem c)).
@@ -350,12 +351,13 @@ Qed.
 
 Lemma irpq_new_model : irpq (fun m => ~ PM m) (new_model T root_attrs).
 Proof.
-  intros w r w' S E. unfold new_model in E.
+  intros w r w' S E B. unfold new_model in E.
   destruct (et_new T (autosar_element T)) as [ty| |]; destruct (elem T (autosar_element T)) as [ed| |]; try discriminate E.
   injection E as <- <-. destruct S as (S1 & S2 & S3 & S4 & S5).
+  destruct B as (B1 & B2 & _). cbn [w_next w_models] in B1, B2. rewrite app_length in B2. cbn [List.length] in B2.
   assert (Hfresh : ~ P (w_next w)). { intros Hp. apply S1 in Hp. lia. }
   assert (Hlen : ~ PM (N.of_nat (List.length (w_models w)))).
-  { intros Hb. destruct (S4 _ Hb) as (xb & Hxb). apply nth_opt_Some in Hxb. rewrite Nnat.Nat2N.id in Hxb. lia. }
+  { intros Hb. destruct (S4 _ Hb) as [(xb & Hxb)|Hge]; [|lia]. apply nth_opt_Some in Hxb. rewrite Nnat.Nat2N.id in Hxb. lia. }
   split; [|split].
   - split; [|split; [|split; [|split; [|exact S5]]]]; cbn [w_next w_nodes w_models].
     + intros i Hi. apply S1 in Hi. lia.
@@ -366,52 +368,62 @@ Proof.
     + intros m x Hk Hx. destruct (nth_opt_snoc (w_models w) (mkModel (w_next w) [] [] []) (N.to_nat m)) as [H|(_ & _ & H)]; rewrite H in Hx.
       * eapply S3; eauto.
       * injection Hx as <-. split; [exact Hfresh|]. split; [intros ? ? []|intros ? ? ? []].
-    + intros m Hm. destruct (S4 m Hm) as (xb & Hxb). exists xb.
+    + intros m Hm. destruct (S4 m Hm) as [(xb & Hxb)|Hge]; [left|right; exact Hge]. exists xb.
       destruct (nth_opt_snoc (w_models w) (mkModel (w_next w) [] [] []) (N.to_nat m)) as [H|(_ & H & _)]; congruence.
   - split; [|split]; cbn [w_next w_nodes w_models w_files].
     + intros j Hj. apply upd_neq. intros ->. auto.
-    + intros m Hm. destruct (S4 m Hm) as (xb & Hxb).
-      destruct (nth_opt_snoc (w_models w) (mkModel (w_next w) [] [] []) (N.to_nat m)) as [H|(_ & H & _)]; congruence.
+    + intros m Hm. destruct (nth_opt_snoc (w_models w) (mkModel (w_next w) [] [] []) (N.to_nat m)) as [H|(Hk & _ & _)]; [exact H|].
+      exfalso. apply Hlen. rewrite <- Hk, Nnat.N2Nat.id. exact Hm.
     + split; [apply FileSame_eq; reflexivity|]. unfold Grow; cbn [w_next w_models w_files]. rewrite app_length. cbn. repeat split; lia.
   - intros a [= <-]. exact Hlen.
 Qed.
 
 Lemma Sealed_new_file w m name version :
-  ~ PM m -> Sealed P PM PF w ->
+  ~ PM m -> SealedL P PM PF L LM LF w ->
   let w1 := mkWorld (w_nodes w) (w_next w) (w_files w ++ [mkFile m name version None]) (w_models w) in
-  Sealed P PM PF w1 /\ Same P PM PF w w1 /\ ~ PF (N.of_nat (List.length (w_files w))).
+  N.of_nat (List.length (w_files w)) < LF ->
+  SealedL P PM PF L LM LF w1 /\ Same P PM PF w w1 /\ ~ PF (N.of_nat (List.length (w_files w))).
 Proof.
-  intros Hm S w1. destruct S as (S1 & S2 & S3 & S4 & S5 & S6).
+  intros Hm S w1 HB. destruct S as (S1 & S2 & S3 & S4 & S5 & S6).
+  assert (Hnew : ~ PF (N.of_nat (List.length (w_files w)))).
+  { intros Hf. destruct (S5 _ Hf) as [(fl & Hfl)|Hge]; [|lia]. apply nth_opt_Some in Hfl. rewrite Nnat.Nat2N.id in Hfl. lia. }
   assert (Hold : forall f, PF f -> nth_opt (w_files w ++ [mkFile m name version None]) (N.to_nat f) = nth_opt (w_files w) (N.to_nat f)).
-  { intros f Hf. destruct (S5 f Hf) as (fl & Hfl).
-    destruct (nth_opt_snoc (w_files w) (mkFile m name version None) (N.to_nat f)) as [H|(_ & H & _)]; congruence. }
+  { intros f Hf. destruct (nth_opt_snoc (w_files w) (mkFile m name version None) (N.to_nat f)) as [H|(Hk & _ & _)]; [exact H|].
+    exfalso. apply Hnew. rewrite <- Hk, Nnat.N2Nat.id. exact Hf. }
   split; [|split].
   - split; [exact S1|]. split; [exact S2|]. split; [exact S3|]. split; [exact S4|]. split.
-    + intros f Hf. destruct (S5 f Hf) as (fl & Hfl). exists fl. subst w1. cbn [w_files]. rewrite Hold by exact Hf. exact Hfl.
+    + intros f Hf. destruct (S5 f Hf) as [(fl & Hfl)|Hge]; [left|right; exact Hge]. exists fl. subst w1. cbn [w_files]. rewrite Hold by exact Hf. exact Hfl.
     + intros f fl Hf Hfl. subst w1. cbn [w_files] in Hfl.
       destruct (nth_opt_snoc (w_files w) (mkFile m name version None) (N.to_nat f)) as [H|(_ & _ & H)]; rewrite H in Hfl.
       * eapply S6; eauto.
       * injection Hfl as <-. exact Hm.
   - split; [reflexivity|]. split; [reflexivity|]. split; [intros f Hf; subst w1; cbn [w_files]; apply Hold; exact Hf|].
     subst w1. unfold Grow; cbn [w_next w_models w_files]. rewrite app_length. cbn. repeat split; lia.
-  - intros Hf. destruct (S5 _ Hf) as (fl & Hfl). apply nth_opt_Some in Hfl. rewrite Nnat.Nat2N.id in Hfl. lia.
+  - exact Hnew.
 Qed.
 
 Lemma irpq_create_file m name version : ~ PM m -> irpq (fun f => ~ PF f) (m_create_file T m name version).
 Proof.
   intros Hm. unfold m_create_file. apply irpq_get_model; [exact Hm|intros x Gx].
-  intros w r w' S E. apply wbind_inv in E as [(w0 & w1 & E1 & E2) | (e & E1 & _)]; [|apply wget_inv in E1 as ([=] & _)].
+  intros w r w' S E B. apply wbind_inv in E as [(w0 & w1 & E1 & E2) | (e & E1 & _)]; [|apply wget_inv in E1 as ([=] & _)].
   apply wget_inv in E1 as ([= ->] & ->).
   destruct (existsb _ (m_files x)).
   { apply wfail_inv in E2 as (-> & ->). split; [exact S|]. split; [apply Same_refl|]. intros a [=]. }
   apply wbind_inv in E2 as [(u & w1 & E1 & E2) | (e & E1 & _)]; [|discriminate E1].
   unfold wput in E1. injection E1 as <- <-.
-  destruct (Sealed_new_file w m name version Hm S) as (S1 & Sm1 & Hfid). cbv zeta in S1, Sm1.
+  assert (HB : N.of_nat (List.length (w_files w)) < LF).
+  { assert (G : Grow (mkWorld (w_nodes w) (w_next w) (w_files w ++ [mkFile m name version None]) (w_models w)) w').
+    { revert E2. generalize (N.of_nat (List.length (w_files w))). intros fid E2.
+      assert (Hg : grows (modify_model m (fun y => set_mfiles y (m_files y ++ [fid]));;
+                     (do w2 <- wget; do _ <- wtry (add_to_file_restricted T (fuel_of w2) (m_root x) fid); wret fid))%W) by grows_tac.
+      exact (Hg _ _ _ E2). }
+    destruct G as (_ & _ & G3). destruct B as (_ & _ & B3). cbn [w_files] in G3. rewrite app_length in G3. cbn [List.length] in G3. lia. }
+  destruct (Sealed_new_file w m name version Hm S HB) as (S1 & Sm1 & Hfid). cbv zeta in S1, Sm1.
   revert E2 Hfid. generalize (N.of_nat (List.length (w_files w))). intros fid E2 Hfid.
   assert (Hk : irpq (fun f => ~ PF f) (modify_model m (fun y => set_mfiles y (m_files y ++ [fid]));;
                      (do w2 <- wget; do _ <- wtry (add_to_file_restricted T (fuel_of w2) (m_root x) fid); wret fid))%W).
   { irp_tac. }
-  destruct (Hk _ _ _ S1 E2) as (S2 & Sm2 & Hq). split; [exact S2|]. split; [eapply Same_trans; eauto|exact Hq].
+  destruct (Hk _ _ _ S1 E2 B) as (S2 & Sm2 & Hq). split; [exact S2|]. split; [eapply Same_trans; eauto|exact Hq].
 Qed.
 
 End Ops.
